@@ -811,6 +811,15 @@ def rule_r7(facts, col, rule_id="C09.R7"):
                     col.ok(rule_id, key, body.where(bb), "the awaited window is not established satisfied on the progress-free paths")
 
 
+
+# a body that raises an alarm as compiled is judged again on its work view (effects.view_fallback)
+rule_r2 = effects.view_fallback(rule_r2)
+rule_r3 = effects.view_fallback(rule_r3)
+rule_r4 = effects.view_fallback(rule_r4)
+rule_r5 = effects.view_fallback(rule_r5)
+rule_r6 = effects.view_fallback(rule_r6)
+rule_r7 = effects.view_fallback(rule_r7)
+
 def run(ctx):
     facts = ctx.facts("default")
     for w in WINDOW_TYPES:
